@@ -36,7 +36,13 @@ TARGETS = {
 }
 
 
-def map_binarizer(desc, mp):
+def map_binarizer(desc, mp, pairs=()):
+    if desc is not None and desc.get("kind") == "strkey":
+        # thresholds keyed by the label's text: the renamed bandit gets the same thresholds as a table keyed by its own
+        # labels (the same function of (arm, reward) composed with the renaming)
+        tab = {k: t for k, t in desc["table"]}
+        return dict({k: v for k, v in desc.items() if k not in ("kind", "table")}, kind="threshold", op="ge",
+                    table=[[y, tab.get(str(x), desc.get("default", 0))] for x, y in pairs])
     if desc is None or desc.get("kind") != "threshold":
         return desc
     d = copy.deepcopy(desc)
@@ -59,7 +65,7 @@ def relabel_plan(cfg, op_list, mapping):
     cfg2 = copy.deepcopy(cfg)
     cfg2["arms"] = [mp(a) for a in cfg["arms"]]
     if cfg2["lp"][0] == "ThompsonSampling" and cfg2["lp"][1].get("binarizer"):
-        cfg2["lp"][1]["binarizer"] = map_binarizer(cfg2["lp"][1]["binarizer"], mp)
+        cfg2["lp"][1]["binarizer"] = map_binarizer(cfg2["lp"][1]["binarizer"], mp, table)
     out = []
     for op in op_list:
         if op[0] in ("fit", "partial_fit"):
@@ -67,7 +73,7 @@ def relabel_plan(cfg, op_list, mapping):
         elif op[0] == "add_arm":
             o = ["add_arm", mp(op[1])]
             if len(op) > 2 and op[2] is not None:
-                o.append(map_binarizer(op[2], mp))
+                o.append(map_binarizer(op[2], mp, table))
             out.append(o)
         elif op[0] == "remove_arm":
             out.append(["remove_arm", mp(op[1])])
